@@ -452,3 +452,21 @@ package goldilocks
 //@   assert (u7(a[1][0])*b[1][0] + 7*u7(a[1][1])*b[1][1]) % P + a[0][0]*b[0][0] + 7*a[0][1]*b[0][1] == a[0][0]*b[0][0] + 7*a[0][1]*b[0][1] + 7*(a[1][0]*b[1][0] + 7*a[1][1]*b[1][1]) - P*(dv(a[1][0]*7)*b[1][0] + 7*dv(a[1][1]*7)*b[1][1] + dv(u7(a[1][0])*b[1][0] + 7*u7(a[1][1])*b[1][1]))
 //@   assert (u7(a[1][0])*b[1][1] + u7(a[1][1])*b[1][0]) % P + a[0][0]*b[0][1] + a[0][1]*b[0][0] == a[0][0]*b[0][1] + a[0][1]*b[0][0] + 7*(a[1][0]*b[1][1] + a[1][1]*b[1][0]) - P*(dv(a[1][0]*7)*b[1][1] + dv(a[1][1]*7)*b[1][0] + dv(u7(a[1][0])*b[1][1] + u7(a[1][1])*b[1][0]))
 //@   ensures res == qea_mul(a, b)
+
+// Partial barycentric interpolation in the algebra (plonky2 partial_interpolate_ext_algebra):
+// fold over the points:  eval' = eval*(point - x_i) + (w_i * val_i) * prod ;  prod' = prod*(point - x_i).
+//@ def qea_at(s, o) = tuple(tuple(s[o], s[o+1]), tuple(s[o+2], s[o+3]))
+//@ def qea_lift(x) = tuple(tuple(x, 0), tuple(0, 0))
+//@ def pint_step(st, x, val, w, point) = tuple(qea_add(qea_mul(qea_at(st, 0), qea_sub(point, qea_lift(x))), qea_mul(qea_smul(tuple(w, 0), val), qea_at(st, 4))), qea_mul(qea_at(st, 4), qea_sub(point, qea_lift(x))))
+//@ recdef qea_pint(dom []int, vals []QE2, ws []int, point QE2, e0 QE2, p0 QE2, k int) [8]int = ite(k <= 0, tuple(e0, p0), pint_step(qea_pint(dom, vals, ws, point, e0, p0, k - 1), dom[k-1], qea_at(vals[k-1], 0), ws[k-1], qea_at(point, 0)))
+
+//@ func (p *Chip) PartialInterpolateExtAlgebra(domain []goldilocks.Element, values []QuadraticExtensionAlgebraVariable, barycentricWeights []goldilocks.Element, point QuadraticExtensionAlgebraVariable, initialEval QuadraticExtensionAlgebraVariable, initialPartialProd QuadraticExtensionAlgebraVariable) (res0 QuadraticExtensionAlgebraVariable, res1 QuadraticExtensionAlgebraVariable)
+//@   props C05 C08
+//@   circuit
+//@   requires chipok(p) && canonQEA(point) && canonQEA(initialEval) && canonQEA(initialPartialProd)
+//@   requires forall(k, 0, len(values), canonQEA(values[k]))
+//@   complete_requires len(values) > 0 && len(values) == len(domain) && len(values) == len(barycentricWeights)
+//@   ensures canonQEA(res0) && canonQEA(res1)
+//@   ensures tuple(res0, res1) == qea_pint(domain, values, barycentricWeights, point, initialEval, initialPartialProd, len(values))
+//@   loop 0 invariant 0 <= i && i <= n && n == len(values) && n == len(domain) && n == len(barycentricWeights) && canonQEA(newEval) && canonQEA(newPartialProd) &&
+//@        tuple(newEval, newPartialProd) == qea_pint(domain, values, barycentricWeights, point, initialEval, initialPartialProd, i)
